@@ -27,6 +27,10 @@ pub fn check(sc: &Scenario, res: &RunResult) -> Vec<Violation> {
         }
         let k = &d.kernel_after;
         if k.budget_exhausted {
+            if let Some(tid) = k.wait_on_sleeper {
+                out.push(v("C02", "attach-wait-unbounded", format!("thread {} is in an uninterruptible sleep that does not end and never reports its attach stop: the wait after PTRACE_ATTACH has no time limit, the request does not return", tid)));
+                continue;
+            }
             let id = if k.wait_deadlock { "blocks-forever-in-wait" } else { "unbounded-loop" };
             out.push(v("C02", id, format!("budget exhausted after {} simulated calls / {} ms simulated time", k.seq, k.clock_ns / 1_000_000)));
         }
